@@ -14,7 +14,7 @@ import time
 from concurrent.futures import ThreadPoolExecutor
 
 ROOT = os.path.dirname(os.path.dirname(os.path.abspath(__file__)))
-EXTRA_CHECKS = {"C11_B": ["C11", "C06"]}  # seeded changes that are (also) caught by another property's check
+EXTRA_CHECKS = {}  # seeded changes that are (also) caught by another property's check
 
 
 def run_one(item):
@@ -61,7 +61,9 @@ def main():
         for name, out in ex.map(run_one, items):
             results[name] = out
             caught = isinstance(out, dict) and any(isinstance(v, dict) and v.get("exit") == 1 for v in out.values())
-            print(f"{name}: {'CAUGHT' if caught else 'MISSED'} {out}", flush=True)
+            benign = "_benign_" in name  # behaviour changes that keep the property: the check must stay silent
+            label = ("FALSE-ALARM" if caught else "SILENT(ok)") if benign else ("CAUGHT" if caught else "MISSED")
+            print(f"{name}: {label} {out}", flush=True)
             with open(res_path, "w") as f:
                 json.dump(results, f, indent=1, sort_keys=True)
     missed = [k for k, v in results.items() if not any(isinstance(x, dict) and x.get("exit") == 1 for x in v.values())]
